@@ -146,7 +146,15 @@ Record dgram := {
   d_src : faddr; d_dst : faddr;
   d_ctr : N; d_ref : option N;     (* msgCounter, msgCounterReference *)
   d_ack : bool;                    (* ackRequest present and true *)
-  d_body : body
+  d_body : body;
+  d_fct : N;                       (* the cmd's `function` element: 0 absent, 1 the function of the data element,
+                                      2 present but empty (what FunctionDataCmd.ReadCmdType emits for a filtered
+                                      read), 3 another function.  ProcessCmd dispatches on the data element and
+                                      never looks at it ("TODO check if cmd.Function is the same ...") *)
+  d_sel : N                        (* a read restricted by a partial filter: 0 none, 1 the function's selectors,
+                                      2 its elements (built by ReadCmdType); put on the wire for reads of data
+                                      functions only.  processRead ignores the filter: the reply carries the
+                                      full current data *)
 }.
 
 (* cmd.Data(): the function named by the eebus tag of the data field, and the token of its value *)
@@ -239,6 +247,10 @@ Inductive op :=
 | AddRespCb (e : eaddr) (f ctr cb : N)               (* FeatureLocal.AddResponseCallback *)
 | AddResultCb (e : eaddr) (f cb : N)                 (* FeatureLocal.AddResultCallback *)
 | QFactory (t : N)                                   (* which of the harness' functions CreateFunctionData(t) registers *)
+| SeqArrive (l : list (N * dgram))
+     (* arrivals back to back: the datagrams are delivered one after the other WITHOUT waiting for the
+        callbacks they start (the callbacks run in goroutines; the harness lets a slow callback block until
+        the end of the operation).  Observed: the invocations of the whole operation. *)
 | ParArrive (ps : list N) (d : dgram) (late : option N) (pf : N).
      (* overlapping arrivals: the same datagram d (a reply or result referencing a counter) arrives on the
         connections ps at once, from as many goroutines, optionally racing with one AddResponseCallback of
@@ -786,6 +798,18 @@ Fixpoint run_evs (v : variant) (s : st) (d : dgram) (l : list ev) : st * list ob
 Definition par_events (ps : list N) (late : option N) (pf : N) : list ev :=
   map EArr ps ++ match late with Some cb => [EReg cb] | None => [] end ++ [EArr pf].
 
+Fixpoint run_seq (v : variant) (s : st) (l : list (N * dgram)) : st * list obs :=
+  match l with
+  | [] => (s, [])
+  | (p, d) :: r =>
+      let '(s1, o1) := inbound_v v s p d in
+      let '(s2, o2) := run_seq v s1 r in
+      (s2, o1 ++ o2)
+  end.
+
+Definition seq_obs (out : list obs) : list obs :=
+  flat_map (fun o => match o with OInvoke _ _ _ _ _ _ _ _ => [o] | _ => [] end) out.
+
 (* what an overlapping operation reports: invocations with the peer blanked, registration outcomes *)
 Definition par_obs (out : list obs) : list obs :=
   flat_map (fun o => match o with
@@ -860,6 +884,8 @@ Definition step_v (v : variant) (s : st) (o : op) : st * list obs :=
       end
   | QFactory t =>
       (s, map ORetN (filter (fn_registered t) all_fns) ++ (if N.eqb t T_GENERIC then [] else [ORetN 1000]))
+  | SeqArrive l =>
+      let '(s1, out) := run_seq v s l in (s1, seq_obs out)
   | ParArrive ps d late pf =>
       let '(s1, out) := run_evs v s d (par_events ps late pf) in (s1, par_obs out)
   end.
